@@ -57,7 +57,14 @@ def m_payload_field(v, args):
     return all(p.get(k) == val for k, val in args.items())
 
 
-MATCHERS = {"offgrid_modify": m_offgrid_modify, "payload_field": m_payload_field}
+def m_spec_flag(v, args):
+    """The violation was raised by the SPECIFICATION: run with the finding's named deviation switched on (e.g. FollowF3 = TRUE in
+    BookOps.tla) it reproduced the code's behaviour exactly, and a clause failed on the specification's own state.  Anything the
+    deviation does not explain is a mismatch between code and specification and is reported as a new violation."""
+    return v.get("payload", {}).get("spec_flag") == args.get("flag")
+
+
+MATCHERS = {"offgrid_modify": m_offgrid_modify, "payload_field": m_payload_field, "spec_flag": m_spec_flag}
 
 
 def match(v, known):
